@@ -1482,7 +1482,7 @@ def evaluate__implicit_timezone(self: XPathFunction, context: ta.ContextType = N
     if context is not None and context.timezone is not None:
         return DayTimeDuration.fromtimedelta(context.timezone.offset)
     else:
-        return DayTimeDuration.fromtimedelta(datetime.timedelta(seconds=time.timezone))
+        return DayTimeDuration.fromtimedelta(datetime.timedelta(seconds=-time.timezone))
 
 
 ###
